@@ -177,7 +177,7 @@ def worker(job):
         return []
     grammar = plain_glr.grammar
     prods = real.prods_json(grammar)
-    configs = [("glr", "default"), ("glr", "skip2")]
+    configs = [("glr", "default"), ("glr", "skip2"), ("glr", "inject"), ("glr", "wrap")]
     if plain_lr is not None:
         configs += [("lr", "default"), ("lr", "skip2"), ("lr", "inject"), ("lr", "wrap")]
     parsers = {}
